@@ -8,22 +8,29 @@ TRANSLATORS = ['t_interp', 't_interpsrc']
 TRUSTED = ['translators t_interp.py (regex on interpolate.c for the depth limit) and t_interpsrc.py (token-for-token match of interpolate_inner, '
            'interpolate and the line loop of interpolate_file: characters, order of tests, IGNORE branch, depth bookkeeping, diagnostics)',
            'modelled, not verified: strchr/strlen, the arena and buffer under interpolate.c, read of /dev/stdin, printf("%s")',
-           'the lookup callback is a pure function of the name in the model (config lookups with side effects are C08\'s subject)']
+           'the lookup callback is a pure function of the name in the model (config lookups with side effects are C08\'s subject)',
+           'the C09 oracle IS the model: spec_ok_cmd runs interp_cmd and compares (InterpSpec.v); what makes it a specification is the theorem that the model '
+           'computes exactly the substitution relation (C09_model_iff_relation, C09_command_exact, C09_ignore_mode), so "oracle failure" and "disagreement" are '
+           'one test reported twice (the oracle entry carries the replay)']
 
 NAMES = [b'a', b'b', b'c', b'd', b'e', b'f', b'g', b'x-y', b'A', b'0', b'a b', b'$', b'{', b'a$', b'${a', b'zz']
 KINDS = {'expected \'{\'': 'brace', 'expected \'}\'': 'close', 'empty variable name': 'empty',
          'unknown variable': 'unknown', 'recursion too deep': 'deep'}
 
 
-def gen_text(rng, names, maxlen=6):
+def gen_text(rng, names, maxlen=6, nul=True):
+    """nul: the three snippets with a NUL byte are for TEMPLATES (stdin cuts the line there, modelled by clines); a value
+    travels through argv and cannot hold one, so values are generated without them instead of discarding the case"""
     out = b''
+    odd = [b'$', b'${', b'${}', b'$}', b'}', b'{', b'$$', b'${a${b}}', b'$ {a}', b'${a', b'$\n', b'${zz}', b'${zz}${a}']
+    if nul:
+        odd += [b'x\x00${', b'\x00', b'${a\x00}']
     for _ in range(rng.randint(0, maxlen)):
         k = rng.random()
         if k < 0.45:
             out += b'${' + rng.choice(names) + b'}'
         elif k < 0.50:
-            out += rng.choice([b'$', b'${', b'${}', b'$}', b'}', b'{', b'$$', b'${a${b}}', b'$ {a}', b'${a', b'$\n', b'${zz}', b'${zz}${a}',
-                               b'x\x00${', b'\x00', b'${a\x00}'])
+            out += rng.choice(odd)
         elif k < 0.57:
             out += b'\n'
         else:
@@ -54,13 +61,35 @@ def gen_env(rng):
             env.append((b'e', b'E'))
     else:
         for n in rng.sample(names, rng.randint(0, 6)):
-            env.append((n, gen_text(rng, names, 3).replace(b'\n', b' ')))
+            env.append((n, gen_text(rng, names, 3, nul=False).replace(b'\n', b' ')))
     if rng.random() < 0.15 and env:   # duplicate definition: first wins
         env.append((env[0][0], b'SECOND'))
     return env
 
 
+def gen_fanout(rng, budget=20000, hang=False):
+    """every value refers F times to the next one, `levels` levels deep (the depth limit allows three value levels below the
+    template), the last one is a plain leaf: the result is the leaf F^(levels+1) times.  budget bounds the size of the result
+    (the list model is quadratic).  Also the shape of seeded/C12-2: a LONG value referenced several times, so that the result
+    outgrows every buffer sized after the template."""
+    levels = rng.choice([0, 1, 1, 2, 2, 2])
+    names = [b'a', b'b', b'c'][:levels + 1]
+    leaf = rng.choice([b'x', b'', b'leaf', b'y' * 40, b'z' * rng.choice([600, 700, 1500, 3000])])
+    room = max(1, budget // max(1, len(leaf)))
+    fmax = min(1500, max(1, int(room ** (1.0 / (levels + 1)))))
+    F = rng.randint(1, fmax) if fmax > 1 and rng.random() < 0.5 else fmax
+    sep = rng.choice([b'', b'', b' ', b'-'])
+    env = []
+    for i, n in enumerate(names):
+        nxt = names[i + 1] if i + 1 < len(names) else None
+        env.append((n, (sep.join([b'${' + nxt + b'}'] * F)) if nxt else leaf))
+    t = sep.join([b'${a}'] * F) + rng.choice([b'', b'\n', b'\ntail ${a}\n' if F * len(leaf) < 3000 else b'\n'])
+    return {'env': [[k.hex(), v.hex()] for k, v in env], 'template': t.hex(), 'fanout': [F, levels + 1, len(leaf)]}
+
+
 def gen_case(rng):
+    if rng.random() < 0.06:
+        return gen_fanout(rng)
     env = gen_env(rng)
     t = gen_text(rng, [n for n, _ in env] + NAMES[:4] + [b'zz'], 8)
     if rng.random() < 0.5 and t and not t.endswith(b'\n'):
@@ -86,13 +115,16 @@ def classify(stderr):
     return (int(m.group(1)), 'other')
 
 
-def run_cmd(impl, conf, case):
+TIME_LIMIT = 5          # seconds; "terminates" for the real command (C12 uses the same limit for "promptly")
+
+
+def run_cmd(impl, conf, case, timeout=TIME_LIMIT):
     args = [os.path.join(impl, 'robsd-config'), '-m', 'canvas', '-C', conf]
     for k, v in case['env']:
         args += ['-v', bytes.fromhex(k) + b'=' + bytes.fromhex(v)]
     args.append('-')
     try:
-        r = subprocess.run(args, input=bytes.fromhex(case['template']), stdout=subprocess.PIPE, stderr=subprocess.PIPE, timeout=20)
+        r = subprocess.run(args, input=bytes.fromhex(case['template']), stdout=subprocess.PIPE, stderr=subprocess.PIPE, timeout=timeout)
         return (r.returncode, r.stdout, r.stderr)
     except subprocess.TimeoutExpired:
         return (-999, b'', b'timeout')
@@ -127,6 +159,18 @@ def evaluate(ctx, cases, res, limit):
         impl_s = '%d %s %d %s' % (rc, hexs(out), lno, kind)
         m = ans[2 * i]
         res.count('cmd exit=%d kind=%s' % (rc, kind))
+        if m.startswith('EXN'):
+            # the extracted model ran out of stack (very large result): no verdict from it; the implementation must still
+            # terminate normally.  More than a handful of these would mean the lane compares nothing: counted, and a tie error
+            res.count('beyond the extracted model (%s)' % m[4:40])
+            res.extra['model_gave_up'] = res.extra.get('model_gave_up', 0) + 1
+            if rc not in (0, 1):
+                res.oracle_failures.append({'case': c, 'signature': 'abnormal-termination', 'what': 'robsd-config terminated with status %d' % rc, 'via': 'robsd-config'})
+            continue
+        if 'fanout' in c:
+            e = c['fanout'][0] ** c['fanout'][1]
+            res.count('fan-out %s expansions, %d level(s), result %s' % ('>= 1000' if e >= 1000 else '< 1000', c['fanout'][1],
+                                                                        '> 4 KiB' if len(out) > 4096 else '<= 4 KiB'))
         if b'${' in bytes.fromhex(c['template']) and c['env']:
             res.nontrivial.add(hashlib.sha1(repr(c).encode()).hexdigest())
         if m != impl_s:
@@ -138,6 +182,8 @@ def evaluate(ctx, cases, res, limit):
                 sig, what = 'partial-output-on-failure', 'exit %d with %d bytes on stdout' % (rc, len(out))
             if rc < 0 or rc > 1:
                 sig, what = 'abnormal-termination', 'robsd-config terminated with status %d' % rc
+            if rc == -999:
+                sig, what = 'hang', 'robsd-config did not terminate within %d s' % TIME_LIMIT
             res.oracle_failures.append({'case': c, 'signature': sig, 'what': what, 'impl': impl_s,
                                         'stderr': err[-300:].decode('latin1'), 'via': 'robsd-config'})
         if rc != 0 and not err.strip():
@@ -166,6 +212,10 @@ def evaluate_str(ctx, impl, cases, res, limit):
         res.oracle_failures.append({'case': cases[len(outs)] if len(outs) < len(cases) else None, 'signature': 'abnormal-termination',
                                     'what': 'interpolate_str harness died (status %s) at case %d' % (p.returncode, len(outs)), 'via': 'interpolate_str'})
         return
+    if len(errs) != len(cases) or len(ans) != len(cases):
+        # the per-case marker lines on stderr / the driver's answers do not line up with the cases: nothing may be dropped silently
+        res.tie_errors.append('interpolate_str lane: %d cases, %d stderr sections, %d model answers' % (len(cases), len(errs), len(ans)))
+        return
     for c, o, e, m in zip(cases, outs, errs, ans):
         res.evaluations += 1
         k = '-'
@@ -183,38 +233,50 @@ def evaluate_str(ctx, impl, cases, res, limit):
 
 
 def source_limit():
+    """the depth limit the translator finds in interpolate.c; raises when it finds none (callers record a tie error)"""
     import t_interp
-    try:
-        return int(re.search(r':= (\d+)\.', t_interp.generate(common.REPO)['Gen_Interp.v']).group(1))
-    except Exception:
-        # the translator no longer finds the limit (reported as a broken tie by the regeneration step): the
-        # correspondence still runs, around the documented limit
-        return 5
+    return int(re.search(r':= (\d+)\.', t_interp.generate(common.REPO)['Gen_Interp.v']).group(1))
 
 
 def load_corpus():
+    """corpus/C09/*.json: cases WITHOUT an `ignore` key go through robsd-config, cases WITH one through the in-process
+    interpolate_str lane.  A missing directory is an error, not an empty corpus."""
     import json, glob
-    return [json.load(open(p)) for p in sorted(glob.glob(os.path.join(common.VERIF, 'corpus', 'C09', '*.json')))]
+    d = os.path.join(common.VERIF, 'corpus', 'C09')
+    if not os.path.isdir(d):
+        raise common.BuildFailure('corpus directory %s is missing' % d)
+    cs = [json.load(open(p)) for p in sorted(glob.glob(os.path.join(d, '*.json')))]
+    if not cs:
+        raise common.BuildFailure('corpus directory %s holds no case' % d)
+    return cs
 
 
 def run(ctx, n=None):
     res = common.Result()
     res.rule = ('templates over {$,{,},newline,ordinary bytes} with references at start/end of line, malformed references; environments that are chains '
-                'of depth 1-6, cycles of length 1-3, diamonds, random; through robsd-config -v k=v - (interpolate_file) and in-process interpolate_str '
-                'with and without IGNORE_LOOKUP_ERRORS; non-trivial = template contains a reference and the environment is non-empty; distinct by content hash')
+                'of depth 1-6, cycles of length 1-3, diamonds, random, fan-out (every value refers F times to the next, up to three levels, results up to 20 kB; '
+                'long values referenced several times); through robsd-config -v k=v - (interpolate_file, 5 s limit) and in-process interpolate_str '
+                'with and without IGNORE_LOOKUP_ERRORS; corpus/C09 first; non-trivial = template contains a reference and the environment is non-empty; distinct by content hash')
     try:
         limit = source_limit()
     except Exception as e:
         res.tie_errors.append('depth limit: %s' % e)
         limit = 5
     n = n or ctx.budget(1200, 40000)
-    cases = [c for c in load_corpus() if 'ignore' not in c] + [gen_case(ctx.rng) for _ in range(n)]
+    corpus = load_corpus()
+    res.count('corpus cases', len(corpus))
+    bad = [c for c in corpus if not argv_ok(c)]
+    if bad:
+        res.tie_errors.append('corpus case cannot be passed through argv: %r' % bad[0].get('kind'))
+    cases = [c for c in corpus if 'ignore' not in c] + [gen_case(ctx.rng) for _ in range(n)]
+    dropped = len([c for c in cases if not argv_ok(c)])
+    res.count('generated cases dropped (value or name not expressible as -v argument)', dropped)
     cases = [c for c in cases if argv_ok(c)]   # a NUL in the template (stdin) cuts that line: modelled by clines
     res.samples = cases[:3]
     impl = None
     for i in range(0, len(cases), 10000):
         impl = evaluate(ctx, cases[i:i + 10000], res, limit)
-    scases = []
+    scases = [c for c in corpus if 'ignore' in c]
     for _ in range(n):
         c = gen_case(ctx.rng)
         c['ignore'] = ctx.rng.randint(0, 1)
@@ -223,6 +285,8 @@ def run(ctx, n=None):
     scases = [c for c in scases if argv_ok(c)]
     evaluate_str(ctx, impl, scases, res, limit)
     res.traces_validated = res.evaluations
+    if res.extra.get('model_gave_up', 0) * 100 > max(1, res.evaluations):
+        res.tie_errors.append('the extracted model gave up on %d of %d cases' % (res.extra['model_gave_up'], res.evaluations))
     res.extra['depth_limit_in_source'] = limit
     return res
 
